@@ -1,4 +1,5 @@
 import Proofs.UncondBase
+import Props.C13c
 /-!
 # UncondC13 — C13: (r, n − s) verifies iff (r, s) does on the named curves with NO primality hypothesis
 
@@ -19,5 +20,24 @@ theorem verifies_neg_s (hr : r ∈ unconditionalCurves) :
   haveI := factP hr
   intro Q hQ e r' s
   exact Named.verifies_neg_s (mem_table hr) (primeN hr) Q hQ e r' s
+
+/-- the byte-level statement (C13c) with NO hypothesis about the curve: on every named curve the bytes of each canonical (low-S)
+encoder verify under a key of ⟨G⟩, through the matching decoder, exactly as the bytes of the plain encoder do -/
+theorem canonical_bytes_verify_iff_plain (hr : r ∈ unconditionalCurves) :
+    haveI := factP hr
+    ∀ (Q : Curve.Pt), OnCurve.Valid (baseCtx r (checked_of_mem (mem_table hr))) Q →
+    ∀ (r' s : ℤ), (0 ≤ r' ∧ r' < r.n) → (1 ≤ s ∧ s < r.n) → ∀ (dg : Bytes) (allow : Bool),
+    (∀ cs ps, encStringCanonize r' s r.n = .ok cs → encString r' s r.n = .ok ps →
+        verifyDigest (OnCurve.ops (crvOf r)) Q Util.sigdecodeString cs dg allow
+          = verifyDigest (OnCurve.ops (crvOf r)) Q Util.sigdecodeString ps dg allow)
+    ∧ (∀ cs ps, encStringsCanonize r' s r.n = .ok cs → encStrings r' s r.n = .ok ps →
+        verifyDigest (OnCurve.ops (crvOf r)) Q Util.sigdecodeStrings [cs.1, cs.2] dg allow
+          = verifyDigest (OnCurve.ops (crvOf r)) Q Util.sigdecodeStrings [ps.1, ps.2] dg allow)
+    ∧ (∀ cs ps, encDerCanonize r' s r.n = .ok cs → encDer r' s r.n = .ok ps →
+        verifyDigest (OnCurve.ops (crvOf r)) Q Util.sigdecodeDer cs dg allow
+          = verifyDigest (OnCurve.ops (crvOf r)) Q Util.sigdecodeDer ps dg allow) := by
+  haveI := factP hr
+  intro Q hQ r' s hr' hs dg allow
+  exact C13c.canonical_bytes_verify_iff_plain_named (mem_table hr) (primeN hr) Q hQ r' s hr' hs dg allow
 
 end UncondC13
